@@ -19,7 +19,8 @@ import (
 // FragResult is what one fragmented-stream trial showed.
 type FragResult struct {
 	Callers, Chunks, SplitPrefixes, Bytes int
-	BlockedWriter                         bool
+	PreludeCut                            int // bytes of the broken session's last frame that arrived before end of stream
+	BlockedWriter, Reopened               bool
 	Shape                                 string
 	Bad                                   string // a caller completed with something else than its own frame
 	Stall                                 string // reader established not consuming / not delivering
@@ -62,6 +63,10 @@ func readerParkedOnLock() string {
 // of very different sizes follow each other, many frames arrive in one piece
 // and frames straddle the 4096-byte buffer of the reader.  Each piece is fed
 // only after the previous one has been read, so every piece is one short read.
+// With reopen the trial starts with an earlier session of the same transport
+// that ended inside a frame (a PRNG-chosen number of bytes of a response, then
+// end of stream): the transport closes, is opened again, and the responses of
+// the new session must be delivered regardless of what the old one received.
 // With blockedWriter one further request is blocked inside the underlying
 // transport's Write for the whole delivery (a peer that does not drain its
 // socket); the other requests' responses must be delivered all the same.
@@ -69,8 +74,8 @@ func readerParkedOnLock() string {
 // Verdicts are logical: (1) bytes stay unread while the read loop is parked on
 // a mutex in two dumps; (2) every byte of every response was read, the read
 // loop is back in Read waiting for more, and a caller still has not returned.
-func FragmentTrial(n int, seed int64, blockedWriter bool) *FragResult {
-	res := &FragResult{Callers: n, BlockedWriter: blockedWriter}
+func FragmentTrial(n int, seed int64, blockedWriter, reopen bool) *FragResult {
+	res := &FragResult{Callers: n, BlockedWriter: blockedWriter, Reopened: reopen}
 	rng := rand.New(rand.NewSource(seed))
 	a := NewAdapterLeg()
 	seen := make(chan uint64, n+8)
@@ -164,6 +169,39 @@ func FragmentTrial(n int, seed int64, blockedWriter bool) *FragResult {
 		}
 		return &caller{opid: OpidOf(ctx), tok: fmt.Sprintf("resp:c%d:", i) + strings.Repeat("p", pad), done: make(chan struct{})}, ctx
 	}
+	if reopen {
+		pc, pctx := newCaller(-1)
+		pctx.SetTimeout(300 * time.Millisecond)
+		pc.tok += strings.Repeat("q", 200+rng.Intn(600))
+		go call(pc, pctx)
+		select {
+		case <-seen:
+		case <-time.After(30 * time.Second):
+			res.Inconclusive = "prelude request did not reach the wire"
+			return res
+		}
+		full := FrameFor(pc.opid, pc.tok)
+		cut := 1 + rng.Intn(len(full)-1)
+		if rng.Intn(3) == 0 {
+			cut = 1 + rng.Intn(8) // inside the size prefix or the header preamble
+		}
+		a.St.Feed(full[:cut])
+		a.St.FeedEOF()
+		select {
+		case <-closedC:
+		case <-time.After(30 * time.Second):
+			res.Inconclusive = "the transport did not close after the stream ended inside a frame"
+			return res
+		}
+		// the request of the broken session is left to its own (short) timeout:
+		// whether a close fails in-flight requests early is not C06's business
+		if err := tr.Open(); err != nil {
+			res.Inconclusive = "reopen: " + err.Error()
+			return res
+		}
+		closedC = tr.Closed()
+		res.PreludeCut = cut
+	}
 	cs := make([]*caller, n)
 	var start sync.WaitGroup
 	start.Add(1)
@@ -249,13 +287,13 @@ func FragmentTrial(n int, seed int64, blockedWriter bool) *FragResult {
 			}
 		}
 	}
-	res.Shape = fmt.Sprintf("n=%d mode=%d blocked=%v", n, mode, blockedWriter)
+	res.Shape = fmt.Sprintf("n=%d mode=%d blocked=%v reopened=%v", n, mode, blockedWriter, reopen)
 	witness := func(extra string) interface{} {
 		var cl []int
 		for c := range cuts {
 			cl = append(cl, c)
 		}
-		return map[string]interface{}{"seed": seed, "shape": res.Shape, "stream_bytes": len(stream), "prefix_offsets": prefixAt, "cuts": cl, "note": extra}
+		return map[string]interface{}{"seed": seed, "shape": res.Shape, "stream_bytes": len(stream), "prefix_offsets": prefixAt, "cuts": cl, "note": extra, "earlier_session_ended_after_bytes": res.PreludeCut}
 	}
 	// consumed waits until every fed byte was read; on a stuck reader it
 	// establishes the lock criterion.
